@@ -1213,6 +1213,58 @@ pub fn scoping_family(mut emit: impl FnMut(X)) {
     }
 }
 
+/// Conditionals whose two branches have the same shape - the same `let` structure, textually identical bound
+/// expressions - over literals of every pair of types, under each consumer of the result: the static type of a
+/// conditional must be the type of whichever branch runs.
+pub fn branch_family(mut emit: impl FnMut(X)) {
+    let v = |n: &str| X::Var(n.to_string());
+    let bx = |x: X| Box::new(x);
+    let s = |t: &str| X::Str(t.to_string());
+    let let1 = |n: &str, val: X, body: X| X::Let(vec![(n.to_string(), val)], Box::new(body));
+    let lits = [X::Int(1), s("s"), X::Bool(true), X::Tup(vec![X::Int(1)]), X::Arr(vec![X::Int(1)])];
+    let shapes = |l: &X| -> Vec<X> {
+        vec![
+            l.clone(),
+            let1("x", l.clone(), v("x")),
+            let1("t", X::Tup(vec![l.clone(), X::Int(2)]), let1("x", X::TupAt(bx(v("t")), 0), v("x"))),
+            let1("t", l.clone(), let1("a", v("t"), v("a"))),
+            let1("t", l.clone(), let1("a", v("t"), let1("b", v("a"), v("b")))),
+            let1("t", X::Tup(vec![l.clone()]), X::TupAt(bx(v("t")), 0)),
+            let1("x", l.clone(), X::Tup(vec![v("x"), X::Int(1)])),
+            let1("x", l.clone(), X::Arr(vec![v("x")])),
+            let1("t", X::Arr(vec![l.clone()]), X::Index(bx(v("t")), bx(X::Int(0)))),
+            X::If(bx(X::Bool(true)), bx(let1("x", l.clone(), v("x"))), bx(let1("x", l.clone(), v("x")))),
+        ]
+    };
+    let conds = [X::Bool(true), X::Bool(false), X::Bin(">", bx(X::Int(1)), bx(X::Int(2))), X::Bin("==", bx(X::Req("request.target.port")), bx(X::Int(80)))];
+    let consumers: Vec<Box<dyn Fn(X) -> X>> = vec![
+        Box::new(|e| e),
+        Box::new(|e| X::Bin("+", Box::new(e), Box::new(X::Int(1)))),
+        Box::new(|e| X::Bin("||", Box::new(e), Box::new(X::Bool(false)))),
+        Box::new(|e| X::Bin("=~", Box::new(e), Box::new(X::Str("s".into())))),
+        Box::new(|e| X::Bin("==", Box::new(e), Box::new(X::Int(1)))),
+        Box::new(|e| X::Bin("_:", Box::new(X::Int(1)), Box::new(e))),
+        Box::new(|e| X::Call("to_string", vec![e])),
+        Box::new(|e| X::Tmpl(vec![e])),
+        Box::new(|e| X::TupAt(Box::new(e), 0)),
+        Box::new(|e| X::Index(Box::new(e), Box::new(X::Int(0)))),
+        Box::new(|e| X::Un("!", Box::new(e))),
+        Box::new(|e| X::Let(vec![("r".to_string(), e)], Box::new(X::Bin("+", Box::new(X::Var("r".into())), Box::new(X::Int(1)))))),
+    ];
+    for l1 in &lits {
+        for l2 in &lits {
+            let (s1, s2) = (shapes(l1), shapes(l2));
+            for (a, b) in s1.iter().zip(s2.iter()) {
+                for c in &conds {
+                    for k in &consumers {
+                        emit(k(X::If(bx(c.clone()), bx(a.clone()), bx(b.clone()))));
+                    }
+                }
+            }
+        }
+    }
+}
+
 #[test]
 fn check() {
     let chk = Check::new("C08");
@@ -1328,6 +1380,19 @@ fn check() {
     }
     samples.push(show(&sf[sf.len() / 2 + 7]));
 
+    // branch family (exhaustive over its grammar)
+    let mut bf: Vec<X> = vec![];
+    branch_family(|x| bf.push(x));
+    let acc_before = runner.accepted.load(Ordering::Relaxed);
+    par_for(bf.len(), |i| {
+        runner.run(&bf[i]);
+    });
+    let bf_accepted = runner.accepted.load(Ordering::Relaxed) - acc_before;
+    if chk.violation_count() == 0 && (bf_accepted < 300) {
+        machinery(format!("vacuous branch family: {} of {} accepted", bf_accepted, bf.len()));
+    }
+    samples.push(show(&bf[bf.len() / 3 + 5]));
+
     let trees = runner.trees.load(Ordering::Relaxed);
     let accepted = runner.accepted.load(Ordering::Relaxed);
     let evals = runner.evals.load(Ordering::Relaxed);
@@ -1338,10 +1403,10 @@ fn check() {
         "exhaustive": true,
         "states": runner.outcomes.len(), "transitions": evals + trees, "traces_validated_against_impl": trees,
         "evaluations": trees, "distinct_nontrivial": accepted,
-        "rule": "all trees with one operator node over the leaf set (depth 1, exhaustive); all trees with one operator node over leaves + one representative depth-1 tree per (static type, outcome vector) class (depth 2); thorough adds a depth-3 slice; every library function with 0-3 arguments over 7 atoms; wide arrays: all 3-member array literals over 12 atoms, indexed once / twice / by a request-dependent index and used in comparisons, membership and strcat; scoping family: 4 literals x 10 aggregate shapes mentioning a let-bound name x 16 uses x {plain, aggregate leaves the name's scope, sibling binding, name re-bound to each of 4 literals (nested / same let)}. non-trivial = accepted by the real checker (then evaluated under up to 6 request environments). states = distinct (static type, per-environment outcome) vectors",
+        "rule": "all trees with one operator node over the leaf set (depth 1, exhaustive); all trees with one operator node over leaves + one representative depth-1 tree per (static type, outcome vector) class (depth 2); thorough adds a depth-3 slice; every library function with 0-3 arguments over 7 atoms; wide arrays: all 3-member array literals over 12 atoms, indexed once / twice / by a request-dependent index and used in comparisons, membership and strcat; scoping family: 4 literals x 10 aggregate shapes mentioning a let-bound name x 16 uses x {plain, aggregate leaves the name's scope, sibling binding, name re-bound to each of 4 literals (nested / same let)}; branch family: conditionals whose branches have the same let structure over 5 x 5 literal types x 10 shapes x 4 conditions x 12 consumers. non-trivial = accepted by the real checker (then evaluated under up to 6 request environments). states = distinct (static type, per-environment outcome) vectors",
         "trees": trees, "accepted_by_checker": accepted, "rejected_by_checker": runner.rejected.load(Ordering::Relaxed),
         "evaluations_run": evals, "compared_with_reference_value": runner.ref_compared.load(Ordering::Relaxed),
-        "leaves": leaves.len(), "depth1": d1.len(), "depth2_atoms": atoms2.len(), "depth2": d2.len(), "depth3": d3n, "arity_family": af.len(), "wide_arrays": wf.len(), "wide_arrays_accepted": wf_accepted, "scoping_family": sf.len(), "scoping_family_accepted": sf_accepted,
+        "leaves": leaves.len(), "depth1": d1.len(), "depth2_atoms": atoms2.len(), "depth2": d2.len(), "depth3": d3n, "arity_family": af.len(), "wide_arrays": wf.len(), "wide_arrays_accepted": wf_accepted, "scoping_family": sf.len(), "scoping_family_accepted": sf_accepted, "branch_family": bf.len(), "branch_family_accepted": bf_accepted,
         "environments": envs.iter().map(|e| e.name).collect::<Vec<_>>(),
         "samples": samples,
     });
